@@ -85,7 +85,13 @@ impl Client {
             match &data_map_level {
                 DataMapLevel::First(_) => break Ok(data),
                 DataMapLevel::Additional(_) => {
-                    data_map_level = rmp_serde::from_slice(&data).map_err(|err| {
+                    // `pack_data_map` self-encrypts the serialised `Chunk` holding the previous level,
+                    // so that is what comes back here.
+                    let chunk: Chunk = rmp_serde::from_slice(&data).map_err(|err| {
+                        error!("Error deserializing data map chunk: {err:?}");
+                        GetError::InvalidDataMap(err)
+                    })?;
+                    data_map_level = rmp_serde::from_slice(chunk.value()).map_err(|err| {
                         error!("Error deserializing data map: {err:?}");
                         GetError::InvalidDataMap(err)
                     })?;
